@@ -151,9 +151,10 @@ def weekPeriod (ref : DateTime) (swift : Int) : Option (Str × DateTime × DateT
   (addDelta end0 0 0 1).bind fun endDate =>
   some (timex, beginDate, endDate)
 
-/-- `_parse_one_word_period`, month branch (`is_month_only`): the month is read off
-`reference + datedelta(months=swift)`. -/
-def monthPeriod (ref : DateTime) (swift : Int) : Option (Str × DateTime × DateTime) :=
+/-- `_parse_one_word_period`, month branch as it was BEFORE `fix: 'next/last month' shifts from the first of the
+month` (d8aa8bf73): the month was read off `reference + datedelta(months=swift)`. Kept as the labelled pre-fix
+variant (regression witness `next_month_prefix_regression`). -/
+def monthPeriodPreFix (ref : DateTime) (swift : Int) : Option (Str × DateTime × DateTime) :=
   (addDelta ref 0 swift 0).bind fun temp =>
   let month := temp.date.m
   let year := temp.date.y
@@ -162,9 +163,10 @@ def monthPeriod (ref : DateTime) (swift : Int) : Option (Str × DateTime × Date
   (addDelta (safeCreateFromMinValue year month 1) 0 1 0).bind fun endDate =>
   some (timex, start, endDate)
 
-/-- The repaired variant proposed for defect `next-month-day-overflow`: shift the *first of the month*. -/
-def monthPeriodFixed (ref : DateTime) (swift : Int) : Option (Str × DateTime × DateTime) :=
-  monthPeriod { date := ⟨ref.date.y, ref.date.m, 1⟩, secs := ref.secs } swift
+/-- `_parse_one_word_period`, month branch (`is_month_only`) of the current code:
+`temp_date = reference.replace(day=1) + datedelta(months=swift)`. -/
+def monthPeriod (ref : DateTime) (swift : Int) : Option (Str × DateTime × DateTime) :=
+  monthPeriodPreFix { date := ⟨ref.date.y, ref.date.m, 1⟩, secs := ref.secs } swift
 
 /-- `_parse_one_word_period`, year branch (`is_year_only`, no prefix). -/
 def yearPeriod (ref : DateTime) (swift : Int) : Option (Str × DateTime × DateTime) :=
@@ -182,5 +184,159 @@ TIMEX `XXXX-MM-DD`. → `(timex, future, past)`. -/
 def monthDayNoYear (ref : DateTime) (m d : Nat) : Str × DateTime × DateTime :=
   let r := generateDates true ref ref.date.y m d
   (luisDateNoYear m d, r.1, r.2)
+
+/-! ## Extension (round 2): the code after `fix: 'next/last month' shifts from the first of the month`, the prefix /
+weekend / to-date branches of `_parse_one_word_period`, `rest of the week|month|year` (`_parse_duration`), and the
+hour / minute / second units of `AgoLaterUtil.get_date_result`. -/
+
+/-- `datetime + timedelta(seconds=k)` as CPython computes it: days and seconds are renormalised, `none` =
+OverflowError when the day leaves 0001-01-01..9999-12-31. -/
+def addSeconds (x : DateTime) (k : Int) : Option DateTime :=
+  let total : Int := (x.date.ord : Int) * 86400 + (x.secs : Int) + k
+  let o := total / 86400
+  let s := total % 86400
+  if 1 ≤ o ∧ o ≤ (maxOrd : Int) then some ⟨Date.ofOrd o.toNat, s.toNat⟩ else none
+
+/-- `Constants.UNIT_H / UNIT_M / UNIT_S`. -/
+inductive TUnit | H | M | S
+deriving DecidableEq, Repr
+
+def TUnit.seconds : TUnit → Int
+  | .H => 3600 | .M => 60 | .S => 1
+
+/-- `DateTimeFormatUtil.luis_time(hour, minute, second)`. -/
+def luisTime (secs : Nat) : Str := pad 2 (secs / 3600) ++ [58] ++ pad 2 (secs % 3600 / 60) ++ [58] ++ pad 2 (secs % 60)
+
+/-- `DateTimeFormatUtil.luis_date_time`. -/
+def luisDateTime (x : DateTime) : Str := luisDateOf x ++ [84] ++ luisTime x.secs
+
+/-- `AgoLaterUtil.get_date_result(unit, num, reference, is_future, AgoLaterMode.DATETIME)` for hours / minutes /
+seconds ("3 hours ago", "in 5 minutes"). -/
+def getDateTimeResult (u : TUnit) (num : Nat) (ref : DateTime) (isFuture : Bool) : Option (Str × DateTime) :=
+  let swift : Int := if isFuture then 1 else -1
+  (addSeconds ref ((num : Int) * swift * u.seconds)).map fun v => (luisDateTime v, v)
+
+/-- `DateUtils.this(reference, day_of_week) + datedelta(days=7 * swift)`. -/
+def weekDay (ref : DateTime) (swift : Int) (dow : Nat) : Option DateTime :=
+  (this ref dow).bind fun x => addDelta x 0 0 (7 * swift)
+
+/-- `_parse_one_word_period`, week branch with the early / mid / late flags (`early_prefix`, `mid_prefix`,
+`late_prefix`; exclusive end). For swift = 0 an early period ends at the reference at the latest and a late period
+starts at the reference at the earliest. -/
+def weekPeriodP (ref : DateTime) (swift : Int) (early mid late : Bool) : Option (Str × DateTime × DateTime) :=
+  let wk (dow : Nat) : Option DateTime := weekDay ref swift dow
+  (wk 4).bind fun thursday =>
+  let timex := pad 4 thursday.date.y ++ [45, 87] ++ pad 2 (isoCalendar thursday.date).2.1
+  (wk 1).bind fun begin0 =>
+  (wk 7).bind fun end0 =>
+  (if early then (wk 3).map fun e => (begin0, e)
+   else if mid then (wk 2).bind fun b => (wk 5).map fun e => (b, e)
+   else if late then (wk 4).map fun b => (b, end0)
+   else some (begin0, end0)).bind fun be =>
+  (addDelta be.2 0 0 1).bind fun e1 =>
+  if early && swift == 0 then some (timex, be.1, if ref.lt e1 then ref else e1)
+  else if late && swift == 0 then some (timex, if be.1.lt ref then ref else be.1, e1)
+  else some (timex, be.1, e1)
+
+/-- `_parse_one_word_period`, weekend branch: Saturday .. Monday (exclusive). The TIMEX takes its year from the
+*reference's calendar year* and its week number from the Saturday (faithful to the code). -/
+def weekendPeriod (ref : DateTime) (swift : Int) : Option (Str × DateTime × DateTime) :=
+  (weekDay ref swift 6).bind fun beginDate =>
+  (weekDay ref swift 7).bind fun end0 =>
+  (addDelta end0 0 0 1).bind fun endDate =>
+  some (pad 4 ref.date.y ++ [45, 87] ++ pad 2 (isoCalendar beginDate.date).2.1 ++ [45, 87, 69], beginDate, endDate)
+
+/-- Repaired variant proposed for `weekend-timex-reference-year`: the ISO year of the Saturday. -/
+def weekendPeriodFixed (ref : DateTime) (swift : Int) : Option (Str × DateTime × DateTime) :=
+  (weekendPeriod ref swift).map fun r =>
+    (pad 4 (isoCalendar r.2.1.date).1 ++ [45, 87] ++ pad 2 (isoCalendar r.2.1.date).2.1 ++ [45, 87, 69], r.2.1, r.2.2)
+
+/-- `_parse_one_word_period`, month branch as it is after the fix (`reference.replace(day=1) +
+datedelta(months=swift)`), with the early / late flags (mid changes nothing): early = `[1st, 16th)`,
+late = `[16th, 1st of next month)`. -/
+def monthPeriodP (ref : DateTime) (swift : Int) (early late : Bool) : Option (Str × DateTime × DateTime) :=
+  (addDelta { date := ⟨ref.date.y, ref.date.m, 1⟩, secs := ref.secs } 0 swift 0).bind fun temp =>
+  let month := temp.date.m
+  let year := temp.date.y
+  let timex := pad 4 year ++ [45] ++ pad 2 month
+  let start := safeCreateFromMinValue year month 1
+  (addDelta (safeCreateFromMinValue year month 1) 0 1 0).bind fun end0 =>
+  if early then (addDelta (safeCreateFromMinValue year month 15) 0 0 1).map fun e => (timex, start, e)
+  else if late then some (timex, safeCreateFromMinValue year month 16, end0)
+  else some (timex, start, end0)
+
+/-- `_parse_one_word_period`, year branch with the early / late flags: late starts on 1 July, early ends on 30 June
+(+ 1 day, exclusive end). -/
+def yearPeriodP (ref : DateTime) (swift : Int) (early late : Bool) : Option (Str × DateTime × DateTime) :=
+  (addDelta ref swift 0 0).bind fun temp =>
+  let year := temp.date.y
+  let beginDate := if late then safeCreateFromMinValue year 7 1 else safeCreateFromMinValue year 1 1
+  let end0 := if early then safeCreateFromMinValue year 6 30 else safeCreateFromMinValue year 12 31
+  (addDelta end0 0 0 1).bind fun endDate =>
+  some (pad 4 year, beginDate, endDate)
+
+/-- `is_year_to_date`: `(timex, [start, end])`, future = past. -/
+def yearToDate (ref : DateTime) : Str × DateTime × DateTime :=
+  (pad 4 ref.date.y, safeCreateFromValue minValue ref.date.y 1 1, ref)
+
+/-- `safe_create_from_value(seed, year, month, day, hour)` with minute = second = 0. -/
+def safeCreateFromValueH (seed : DateTime) (y : Int) (m d h : Nat) : DateTime :=
+  if isValidDate y m d && decide (h < 24) then ⟨⟨y.toNat, m, d⟩, h * 3600⟩ else seed
+
+/-- `is_month_to_date`: `(timex, future start, past start, end)`. Faithful to the code: the past value's start is
+built with the arguments `(year, month, month, 1)` — day = month number, hour = 1. -/
+def monthToDate (ref : DateTime) : Str × DateTime × DateTime × DateTime :=
+  (pad 4 ref.date.y ++ [45] ++ pad 2 ref.date.m,
+   safeCreateFromValue minValue ref.date.y ref.date.m 1,
+   safeCreateFromValueH minValue ref.date.y ref.date.m ref.date.m 1,
+   ref)
+
+/-- The units of `rest of the <unit>` (`Constants.UNIT_W / UNIT_MON / UNIT_Y`). -/
+inductive RUnit | W | MON | Y
+deriving DecidableEq, Repr
+
+/-- `_parse_duration`, the `rest_of_date_regex` block with `begin_date = end_date = reference` (no duration prefix):
+outer `none` = the code raises, inner `none` = no result (`success` stays False), else `(timex, begin, end)` with
+TIMEX `(begin,end,P<diff>D)`. The end is an *inclusive* last day; `diff` is `end − begin` for weeks but
+`end − begin + 1` for months and years (faithful to the code). -/
+def restOfFin (ref endDate : DateTime) (diff : Int) (restNowSunday : Bool) : Option (Str × DateTime × DateTime) :=
+  if ref ≠ endDate ∨ restNowSunday = true then
+    some ([40] ++ luisDateOf ref ++ [44] ++ luisDateOf endDate ++ [44, 80] ++
+            (if diff < 0 then [45] ++ natStr diff.natAbs else natStr diff.toNat) ++ [68, 41], ref, endDate)
+  else none
+
+def restOf (u : RUnit) (ref : DateTime) : Option (Option (Str × DateTime × DateTime)) :=
+  match u with
+  | .W =>
+    let diff : Int := 7 - (ref.date.isoWeekday : Int)
+    (addDays ref diff).map fun e => restOfFin ref e diff (diff == 0)
+  | .MON =>
+    let e := safeCreateFromMinValue ref.date.y ref.date.m (daysInMonth ref.date.y ref.date.m)
+    some (restOfFin ref e ((e.date.d : Int) - ref.date.d + 1) false)
+  | .Y =>
+    let e := safeCreateFromMinValue ref.date.y 12 31
+    some (restOfFin ref e (((e.date.ord : Int) - daysBeforeYear e.date.y) - ((ref.date.ord : Int) - daysBeforeYear ref.date.y) + 1) false)
+
+
+/-- `datetime.replace(year=y)`: `none` = ValueError when the day does not exist in that year. -/
+def replaceYear (x : DateTime) (y : Int) : Option DateTime :=
+  if isValidDate y x.date.m x.date.d then some ⟨⟨y.toNat, x.date.m, x.date.d⟩, x.secs⟩ else none
+
+/-- `BaseDateParser.parse_number_with_month`, the tail for a month and a (spelled-out) day without a year
+(`ambiguous = True`, "february twenty second", "mayo veintiuno"): faithful to the code — the past candidate is moved
+to `year + 1` (not `year − 1`) when it is not before the reference. → `(timex, future, past)`. -/
+def numberWithMonth (ref : DateTime) (m d : Nat) : Option (Str × DateTime × DateTime) :=
+  let date := safeCreateFromMinValue ref.date.y m d
+  (if date.lt ref then replaceYear date ((date.date.y : Int) + 1) else some date).bind fun future =>
+  (if ref.le date then replaceYear date ((date.date.y : Int) + 1) else some date).bind fun past =>
+  some (luisDateNoYear m d, future, past)
+
+/-- Repaired variant proposed for `written-day-past-year-plus-one`: `year − 1` for the past candidate. -/
+def numberWithMonthFixed (ref : DateTime) (m d : Nat) : Option (Str × DateTime × DateTime) :=
+  let date := safeCreateFromMinValue ref.date.y m d
+  (if date.lt ref then replaceYear date ((date.date.y : Int) + 1) else some date).bind fun future =>
+  (if ref.le date then replaceYear date ((date.date.y : Int) - 1) else some date).bind fun past =>
+  some (luisDateNoYear m d, future, past)
+
 
 end RTV.DateUtils
